@@ -121,6 +121,10 @@ type Config struct {
 	EntryOnly bool
 	// Loads makes the engine emit KLoad events for field loads.
 	Loads bool
+	// StableLoad names field paths (key "Owner.Field…@base") whose value no
+	// callee changes: numbered loads of them survive calls. Stores seen on
+	// the path still invalidate them.
+	StableLoad func(key string) bool
 	// InlineLoops allows callees with loops to be expanded; they are
 	// traversed acyclically (paths that iterate are dropped).
 	InlineLoops bool
@@ -381,7 +385,15 @@ func (en *enum) instrs(st *state, b *ssa.BasicBlock, from int) {
 				sc := ins.Call.StaticCallee()
 				expanded := sc != nil && ins.Call.Method == nil && fr.depth < 3 && !fr.onStack(sc) && en.shouldInline(fr.fn, sc)
 				if !expanded {
-					st.loads = map[string]ssa.Value{}
+					if en.cfg.StableLoad == nil {
+						st.loads = map[string]ssa.Value{}
+					} else {
+						for k := range st.loads {
+							if !en.cfg.StableLoad(k) {
+								delete(st.loads, k)
+							}
+						}
+					}
 				}
 			}
 			if bl, ok := ins.Call.Value.(*ssa.Builtin); ok && bl.Name() == "len" && len(ins.Call.Args) == 1 {
